@@ -91,6 +91,7 @@ def run(ctx):
     from .posctl import run_posctl
 
     run_posctl(ctx, "E4.id-table", "u8-tables")
+    F.check_order_insensitive(ctx, "E4.set-order", P, ("SecretKey<C>::combine", "Signature<C>::from_shares", "PublicKey<C>::from_shares", "SignCryptDecryptionKey<C>::from_shares", "ElGamalDecryptionKey<C>::from_shares", "BlsSignatureCore::core_combine_signature_shares", "BlsSignatureCore::core_combine_public_key_shares"))
     # core combiners forward their slice unmodified
     for fk in ("BlsSignatureCore::core_combine_signature_shares", "BlsSignatureCore::core_combine_public_key_shares"):
         f = ctx.need_fn("E6.combine", fk)
@@ -186,6 +187,14 @@ def run(ctx):
         check_arm_purity(ctx, "E2-A", P, [f])
         n = SP.check_trait_by_scheme(ctx, "E2.dispatch", P, f, ("partial_sign", "sign", "core_partial_sign"))
         ctx.floor("E2.dispatch", "schemes of SecretKeyShare::sign reaching their signer", n, 2)
+    for fk in ("PublicKeyShare<C>::verify", "SignatureShare<C>::verify"):
+        f = ctx.need_fn("E2.dispatch", fk)
+        if f is not None:
+            from ..core.sym import inline as _inl
+
+            n = SP.check_trait_by_scheme(ctx, "E2.dispatch", P, f, ("verify", "partial_verify", "core_verify", "core_signature_share_verify"))
+            if fk.startswith("PublicKeyShare"):
+                ctx.floor("E2.dispatch", "schemes of PublicKeyShare::verify reaching their verifier", n, 3)
     # core_signature_share_verify: identifiers compared, both payloads checked
     f = ctx.need_fn("E4.sharever", "BlsSignatureCore::core_signature_share_verify")
     if f is not None:
